@@ -50,9 +50,12 @@ func NewFSImporter(opts FSImporterOptions) *FSImporter {
 
 // Import a module by name.
 func (i *FSImporter) Import(ctx context.Context, name string) (*object.Module, error) {
+	verifLock(&i.mutex, 0)
+	defer verifLock(&i.mutex, 1)
 	i.mutex.Lock()
 	defer i.mutex.Unlock()
 
+	verifAccess(i, "codeCache", false)
 	if code, ok := i.codeCache[name]; ok {
 		return object.NewModule(name, code), nil
 	}
@@ -67,6 +70,7 @@ func (i *FSImporter) Import(ctx context.Context, name string) (*object.Module, e
 		return nil, err
 	}
 
+	verifAccess(i, "codeCache", true)
 	i.codeCache[name] = code
 
 	return object.NewModule(name, code), nil
